@@ -13,6 +13,11 @@ VERIF = os.path.dirname(HERE)
 PY = os.environ.get("VERIF_PYTHON", "/venv/bin/python")
 WORKER = os.path.join(HERE, "worker.py")
 
+
+def out_dir():
+    """Where evidence and replay files go (VERIF_OUT redirects them for mutant/self-test runs)."""
+    return os.environ.get("VERIF_OUT", VERIF)
+
 from .core import derive  # noqa: E402
 from .tiers import TIERS, META  # noqa: E402
 
@@ -102,7 +107,7 @@ from .known import classify, match_known  # noqa: E402
 # ------------------------------------------------------------------ main entry
 
 def write_replay(pid, v, seed, hashseed):
-    d = os.path.join(VERIF, "replays", pid)
+    d = os.path.join(out_dir(), "replays", pid)
     os.makedirs(d, exist_ok=True)
     path = os.path.join(d, "%s.json" % v["sig_id"])
     with open(path, "w") as f:
@@ -112,6 +117,9 @@ def write_replay(pid, v, seed, hashseed):
 
 
 def run_check(pid, tier, seed, workers=None, cases=None, quiet=False):
+    if pid == "C17":
+        from .c17_runner import run_check_c17
+        return run_check_c17(tier, seed, workers=workers, cases=cases)
     t0 = time.time()
     cfg = dict(TIERS[pid][tier])
     if cases:
@@ -277,8 +285,8 @@ def run_check(pid, tier, seed, workers=None, cases=None, quiet=False):
         "wall_s": round(wall_s, 2),
         "violations": len(new_viol),
     }
-    os.makedirs(os.path.join(VERIF, "evidence"), exist_ok=True)
-    with open(os.path.join(VERIF, "evidence", "%s.json" % pid), "w") as f:
+    os.makedirs(os.path.join(out_dir(), "evidence"), exist_ok=True)
+    with open(os.path.join(out_dir(), "evidence", "%s.json" % pid), "w") as f:
         json.dump(ev, f, indent=1, default=str, sort_keys=True)
 
     for l in out_lines:
@@ -299,6 +307,9 @@ def run_check(pid, tier, seed, workers=None, cases=None, quiet=False):
 def run_replay(pid, path):
     with open(path) as f:
         rep = json.load(f)
+    if pid == "C17" and rep.get("kind") == "cross_interpreter":
+        from .c17_runner import run_replay_c17
+        return run_replay_c17(path, rep)
     cfg = dict(TIERS[pid]["quick"])
     lines = run_workers([({"property": pid, "mode": "replay", "replay": rep, "tier_cfg": cfg},
                           rep.get("pythonhashseed", 0))], 300)[0]
